@@ -19,27 +19,35 @@ from vflib import Check
 
 MANIFEST = dict(
     text="Machine-checked proof (Lean 4) about a model of ledger's price graph (one sorted date->price map per commodity pair with "
-         "overwrite on equal moments, upper_bound lookup, path search over the edges priced at the moment, product of edge prices with "
-         "inversion, price x quantity) that, for every history of any length and every valuation moment: the price chosen for a pair is "
-         "the latest recorded not after the moment (last recorded on equal moments), prices dated after the moment never influence an "
-         "-X conversion, the result is exactly q*p, q/p for a reversed quote, q*prod(p_i^+-1) along a chain, amounts without an "
-         "applicable price stay unconverted, and insertion order is irrelevant when dates are distinct (26 theorems). The comparison "
-         "operators and the code text of the mirrored statements are re-extracted from history.cc/commodity.cc/pool.cc/amount.cc/... on "
+         "overwrite on equal moments, upper_bound lookup, route choice by boost's Dijkstra with distance_combine = max over the edges "
+         "priced at the moment, product of edge prices with inversion, price x quantity) that, for every history of any length and "
+         "every valuation moment: the price chosen for a pair is the latest recorded not after the moment (last recorded on equal "
+         "moments); the route taken is a simple path of such price points whose oldest price is as recent as on ANY other path "
+         "(Dijkstra correctness, for every admissible tie-break), found whenever one exists; the result is exactly q*p, q/p for a "
+         "reversed quote, q*prod(p_i^+-1) along the route; amounts without an applicable price stay unconverted; insertion order is "
+         "irrelevant when dates are distinct; on single edges, reversed edges and simple chains (the property's graphs) the route is "
+         "the chain and prices dated after the moment never influence -X (42 theorems). The comparison operators, the code text of "
+         "the mirrored ledger statements and of the boost 1.83 routines whose tie behaviour the model copies are re-extracted on "
          "every run (C10.flags, C10.source_pinned); the model is run against the rebuilt binary on generated journals (P lines with and "
-         "without times, costs, equal-date and out-of-order entries, single/reversed edges and chains over 2-5 commodities) at valuation "
-         "dates before/on/after every price date via bal -X/-V, reg -X and pricedb; an independent Fraction oracle and the paired-run "
-         "relation (drop the future prices, output must not change) supply the failing input when a proof or the tie breaks.",
-    note="Proved fragment for path choice: graphs where the walk is forced (single edge, reversed edge, simple chain, forests); ledger's "
-         "Dijkstra over several routes is not modelled. Valuation moments are midnights (--now takes a date). Precision counters of the "
-         "result are not compared (C04). -V: the full 'future prices never matter' statement is proved FALSE for the model "
-         "(C10.market_future_irrelevant_false) and reproduced on the binary: a price dated after D marks its unit COMMODITY_PRIMARY "
-         "(commodity.cc 48-55) and thereby stops -V revaluing it, and it can reorder equal-date neighbours (history.cc 398-411) - "
-         "fingerprints C10:-V:future-price-marks-primary and C10:-V:future-price-reorders-neighbours (findings/C10-V-future-*.json).",
-    technique="Lean 4 proof by refinement (sorted-map machinery = fold over the history) and induction + regenerated operator flags / "
-              "pinned code text + differential model/binary check + independent oracle with paired runs",
+         "without times, costs, equal-date and out-of-order entries; single/reversed edges, chains, triangles, diamonds, webs over 2-5 "
+         "commodities) at valuation dates before/on/after every price date via bal -X/-V, reg -X (also --sort -date) and pricedb; an "
+         "independent Fraction oracle with its own Dijkstra and the paired-run relation (drop the future prices, output must not "
+         "change) supply the failing input when a proof or the tie breaks.",
+    note="Valuation moments are midnights (--now takes a date). Precision counters of the result are not compared (C04). Which of "
+         "several equally old routes is taken follows boost's 4-ary heap, which the executable model copies (proofs do not rest on it). "
+         "Full-strength 'future prices never matter' is proved FALSE and reproduced on the binary in three places: -V, a price dated after "
+         "D marks its unit COMMODITY_PRIMARY (known finding C10:-V:future-price-marks-primary); -V, it can reorder equal-date neighbours "
+         "(known finding C10:-V:future-price-reorders-neighbours); -X on graphs with several equally old routes it can change the route "
+         "(C10.exchange_future_irrelevant_general_false, fingerprint C10:-X:future-price-reorders-routes - outside the property's "
+         "quantifier, recorded in the evidence as an observation).",
+    technique="Lean 4 proof by refinement (sorted-map machinery = fold over the history; functional Dijkstra with invariants) and "
+              "induction + regenerated operator flags / pinned code text + differential model/binary check + independent oracle with "
+              "paired runs",
     ref="DESIGN.md §5 C10")
 
 COMMS = ["AAA", "BBB", "CCC", "DDD", "EEE"]
+OUTSIDE_QUANTIFIER = {"C10:-X:future-price-reorders-routes"}
+FOREST_TAGS = ("single", "reversed", "mixed", "chain", "exh", "boundary")
 BASE = date(2020, 3, 1)
 TIMES = [None, None, None, (0, 0, 0), (12, 0, 0), (23, 59, 59), (0, 0, 1)]
 FMT_BAL = "%(account)|%(verif_rational(display_total))\n"
@@ -207,6 +215,7 @@ def o_recent(entries, a, b, D):
 
 
 def o_paths(entries, D, src, tgt):
+    """All simple paths from src to tgt over the pairs that have a price dated <= D."""
     comms = set()
     for e in entries:
         comms.update([e[0], e[1]])
@@ -223,16 +232,35 @@ def o_paths(entries, D, src, tgt):
     return res
 
 
-def o_value_x(entries, D, tgt, q, c):
-    """(quantity, commodity, shape) of q c converted into tgt as of D."""
-    if c == tgt:
-        return q, c, "same"
-    paths = o_paths(entries, D, c, tgt)
-    if not paths:
-        return q, c, "none"
-    if len(paths) > 1:
-        raise Ambiguous
-    path = paths[0]
+def o_age(entries, D, a, b):
+    return int((D - o_recent(entries, a, b, D)[2]).total_seconds())
+
+
+def o_dijkstra(entries, D, src):
+    """My own Dijkstra over ages with ledger's route length: the age of the OLDEST price on the
+    route (history.cc 464-467, distance_combine = max).  Returns {commodity: least such age}."""
+    import heapq
+    comms = set()
+    for e in entries:
+        comms.update([e[0], e[1]])
+    dist = {src: 0}
+    done = set()
+    pq = [(0, src)]
+    while pq:
+        d, u = heapq.heappop(pq)
+        if u in done:
+            continue
+        done.add(u)
+        for v in comms:
+            if v != u and v not in done and o_recent(entries, u, v, D) is not None:
+                nd = max(d, o_age(entries, D, u, v))
+                if v not in dist or nd < dist[v]:
+                    dist[v] = nd
+                    heapq.heappush(pq, (nd, v))
+    return dist
+
+
+def o_rate(entries, D, path):
     r = Fraction(1)
     inverted = False
     for a, b in zip(path, path[1:]):
@@ -242,8 +270,30 @@ def o_value_x(entries, D, tgt, q, c):
         else:
             inverted = True
             r *= (1 / e[3]) if e[3] != 0 else 0
-    shape = "chain" if len(path) > 2 else ("reversed" if inverted else "direct")
-    return q * r, tgt, shape
+    return r, inverted
+
+
+def o_value_x(entries, D, tgt, q, c):
+    """(set of acceptable (quantity, commodity), shape) of q c converted into tgt as of D.
+    With several routes ledger takes one whose oldest price is as recent as possible; which of
+    several equally good routes it takes is not fixed by the property, so all of them are acceptable."""
+    if c == tgt:
+        return {(q, c)}, "same"
+    paths = o_paths(entries, D, c, tgt)
+    if not paths:
+        return {(q, c)}, "none"
+    best = o_dijkstra(entries, D, c)[tgt]
+    good = [p for p in paths if max(o_age(entries, D, a, b) for a, b in zip(p, p[1:])) == best]
+    assert good and all(max(o_age(entries, D, a, b) for a, b in zip(p, p[1:])) >= best for p in paths)
+    vals = set()
+    shape = None
+    for path in good:
+        r, inverted = o_rate(entries, D, path)
+        vals.add((q * r, tgt))
+        shape = "chain" if len(path) > 2 else ("reversed" if inverted else "direct")
+    if len(paths) > 1:
+        shape = "routes-tied" if len(vals) > 1 else "routes"
+    return vals, shape
 
 
 def o_value_v(entries, D, q, c, lot, date_aware):
@@ -253,8 +303,7 @@ def o_value_v(entries, D, q, c, lot, date_aware):
     if c in prim:
         return {(q, c)}
     if lot:
-        v = o_value_x(entries, D, lot, q, c)
-        return {(v[0], v[1])}
+        return o_value_x(entries, D, lot, q, c)[0]
     cands = []
     for n in {e[0] for e in entries} | {e[1] for e in entries}:
         if n != c:
@@ -280,19 +329,7 @@ def clean(bal):
     return {c: q for c, q in bal.items() if q != 0}
 
 
-def o_balance_x(entries, D, tgt, holds):
-    bal = {}
-    shapes = set()
-    for q, c, lot in holds:
-        v = o_value_x(entries, D, tgt, q, c)
-        add_to(bal, v[0], v[1])
-        shapes.add(v[2])
-    return clean(bal), shapes
-
-
-def o_balance_v(entries, D, holds, date_aware):
-    """All acceptable balances (ties between equal-date neighbours multiply out)."""
-    alts = [sorted(o_value_v(entries, D, q, c, lot, date_aware)) for q, c, lot in holds]
+def combos(alts):
     n = 1
     for a in alts:
         n *= len(a)
@@ -303,8 +340,25 @@ def o_balance_v(entries, D, holds, date_aware):
         bal = {}
         for q, c in combo:
             add_to(bal, q, c)
-        res.append(clean(bal))
+        bal = clean(bal)
+        if bal not in res:
+            res.append(bal)
     return res
+
+
+def o_balance_x(entries, D, tgt, holds):
+    """(all acceptable balances, shapes of the conversions)."""
+    alts, shapes = [], set()
+    for q, c, lot in holds:
+        vals, shape = o_value_x(entries, D, tgt, q, c)
+        alts.append(sorted(vals))
+        shapes.add(shape)
+    return combos(alts), shapes
+
+
+def o_balance_v(entries, D, holds, date_aware):
+    """All acceptable balances (ties between equal-date neighbours multiply out)."""
+    return combos([sorted(o_value_v(entries, D, q, c, lot, date_aware)) for q, c, lot in holds])
 
 
 def o_listing(entries, D, posted):
@@ -401,15 +455,15 @@ def classify_value(entries, D, mode, hs, got):
         blind = o_balance_v(entries, D, hs, False)
         shapes = {"market"}
     else:
-        w, shapes = o_balance_x(entries, D, mode[2:], hs)
-        want_all, blind = [w], None
+        want_all, shapes = o_balance_x(entries, D, mode[2:], hs)
+        blind = None
     if got in want_all:
         return None, want_all, shapes
     if mode == "V" and got in blind:
         return "C10:-V:future-price-marks-primary", want_all, shapes
     if mode == "V":
         return "C10:-V:value", want_all, shapes
-    main = next((x for x in ("chain", "reversed", "direct") if x in shapes), "unconverted")
+    main = next((x for x in ("routes-tied", "routes", "chain", "reversed", "direct") if x in shapes), "unconverted")
     return "C10:-X:value:" + main, want_all, shapes
 
 
@@ -418,10 +472,24 @@ def coarse(fp):
     return "C10:-X:value" if fp and fp.startswith("C10:-X:value:") else fp
 
 
-def classify_pair(entries, st_entries, D, mode, holds, r1, r2):
-    """Cause of a difference between the run with and the run without the prices dated after D."""
+def classify_pair(entries, st_entries, D, mode, holds, r1, r2, only=None):
+    """Cause of a difference between the run with and the run without the prices dated after D
+    (for the one account `only`, or for the report as a whole)."""
+    if only is not None:
+        r1 = {only: r1.get(only)}
+        r2 = None if r2 is None else {only: r2.get(only)}
     if r1 == r2:
         return None
+    if mode != "V" and r2 is not None:
+        # several routes whose oldest prices are equally old: both runs acceptable, they differ in the route taken
+        try:
+            tied = all(r1.get(a) in o_balance_x(entries, D, mode[2:], holds[a])[0] and
+                       r2.get(a) in o_balance_x(st_entries, D, mode[2:], holds[a])[0] and
+                       len(o_balance_x(entries, D, mode[2:], holds[a])[0]) > 1
+                       for a in sorted(set(r1) | set(r2)) if r1.get(a) != r2.get(a) and a in holds)
+        except Ambiguous:
+            tied = False
+        return "C10:-X:future-price-reorders-routes" if tied else "C10:-X:future-price-influences"
     if mode != "V" or r2 is None:
         return "C10:%s:future-price-influences" % ("-V" if mode == "V" else "-X")
     causes = set()
@@ -501,6 +569,8 @@ def run_ledger_case(case):
             for t in case.targets[:1]:
                 res["reg"][t] = lrun(["-f", full, "reg", "^A", "--empty", "--no-rounding", "-X", t,
                                                   "--now", case.dates[-1].strftime("%Y/%m/%d"), "--format", FMT_REG])
+                res["reg"][t + " --sort -date"] = lrun(["-f", full, "reg", "^A", "--empty", "--no-rounding", "-X", t, "--sort", "-date",
+                                                       "--now", case.dates[-1].strftime("%Y/%m/%d"), "--format", FMT_REG])
     finally:
         shutil.rmtree(d, ignore_errors=True)
     return res
@@ -520,6 +590,12 @@ def model_lines(case):
         if case.listing and k % 2 == 0:
             lines.append("px.list\t%s\t%s\t%s" % (hist, D.strftime("%Y/%m/%d"), ",".join(sorted(posted_comms(case.items)))))
             keys.append(("db", k))
+        if case.tag in FOREST_TAGS:
+            # on forests the general route choice must coincide with the forced-walk search (C10.route_coincides_on_chain)
+            for acct in sorted(holds):
+                hs = ";".join("%s,%s,%s" % (fr(q), c, lot) for q, c, lot in holds[acct])
+                lines.append("px.value\t%s\t%s\tX0:%s\t%s\t%s" % (V, hist, case.targets[0], D.strftime("%Y/%m/%d"), hs))
+                keys.append(("x0", k, acct))
     return lines, keys
 
 
@@ -587,21 +663,31 @@ def evaluate(ctx, case, led, model):
                 if rc2 is None:
                     ctx.feature("infra:timeout-not-observed")
                     r2 = r1
-                fp = classify_pair(entries, st_entries, D, mode, holds, r1, r2)
-                if fp is not None:
+                if classify_pair(entries, st_entries, D, mode, holds, r1, r2) is not None:
                     ok_case = False
                     diff = [a for a in sorted(set(r1) | set(r2 or {})) if r1.get(a) != (r2 or {}).get(a)]
-                    what = ("%s --now %s: removing the prices dated after the valuation date changes the report (accounts %s: %s with them, "
-                            "%s without)" % (mode_text(mode), D.date(), diff, [show(r1.get(a)) for a in diff],
-                                             [show((r2 or {}).get(a)) for a in diff]))
-                    probs.append(("oracle", fp, what, {"kind": "paired", "journal": jt, "journal_without_future": journal_text(st_items),
-                                                         "args": args}, (case, D, mode, None)))
+                    seen_fp = set()
+                    for a in diff:                              # one cause per account: two known causes may meet in one journal
+                        fp = classify_pair(entries, st_entries, D, mode, holds, r1, r2, only=a)
+                        if fp is None or fp in seen_fp:
+                            continue
+                        seen_fp.add(fp)
+                        what = ("%s --now %s: removing the prices dated after the valuation date changes account %s: %s with them, %s without"
+                                % (mode_text(mode), D.date(), a, show(r1.get(a)), show((r2 or {}).get(a))))
+                        probs.append(("oracle", fp, what, {"kind": "paired", "journal": jt, "journal_without_future": journal_text(st_items),
+                                                             "args": args, "account": a}, (case, D, mode, ("pair", a))))
             if ok_case:
                 ctx.traces_validated += 1
-            nt = near_change(entries, D) or (mode != "V" and bool({"reversed", "chain"} & set().union(
+            nt = near_change(entries, D) or (mode != "V" and bool({"reversed", "chain", "routes", "routes-tied"} & set().union(
                 *[o_shapes(entries, D, mode[2:], holds[a]) for a in holds])))
             if nt:
                 ctx.nontrivial((hashlib.sha1(jt.encode()).hexdigest(), str(D), mode))
+        for acct in sorted(holds):
+            if ("x0", k, acct) in mans:
+                ctx.count()
+                if mans[("x0", k, acct)] != mans[("bal", k, "X:" + case.targets[0], acct)]:
+                    ctx.tie_broken("model:forest-coincidence", "valueXG and valueX differ on a forest: %s vs %s (-X %s as of %s, account %s)\n%s" %
+                                   (mans[("bal", k, "X:" + case.targets[0], acct)], mans[("x0", k, acct)], case.targets[0], D.date(), acct, jt))
         if ("db", k) in mans:
             ctx.count()
             rc, out, err = led["db"][k]
@@ -628,10 +714,11 @@ def evaluate(ctx, case, led, model):
             continue
         ctx.count()
         ctx.feature("register")
-        bad = check_register(entries, t, rc, out, err)
+        bad = check_register(entries, t.split(" ")[0], rc, out, err)
         if bad:
             probs.append(("oracle", "C10:reg:" + bad[0], "reg -X %s: %s" % (t, bad[1]),
-                          {"kind": "reg", "journal": jt, "target": t, "now": case.dates[-1].strftime("%Y/%m/%d"),
+                          {"kind": "reg", "journal": jt, "target": t.split(" ")[0], "extra": t.split(" ")[1:],
+                           "now": case.dates[-1].strftime("%Y/%m/%d"),
                            "prices": [[e[0], e[1], e[2].isoformat(), fr(e[3])] for e in entries]}, None))
         else:
             ctx.traces_validated += 1
@@ -676,7 +763,7 @@ def check_register(entries, tgt, rc, out, err):
     as of the row's date (00:00:00); a posting row's amount is valued as of the posting date."""
     if rc != 0 or err.strip():
         return ("error", "ledger failed: %s" % err[:200])
-    held = []
+    held = {}
     for line in out.split("\n"):
         if not line:
             continue
@@ -686,17 +773,18 @@ def check_register(entries, tgt, rc, out, err):
             if not acct.startswith("<"):
                 raw = parse_vr(amt)
                 hs = [(q, c, "") for c, q in raw.items()]
-                held += hs
+                for q, c, _ in hs:
+                    add_to(held, q, c)
                 want, _ = o_balance_x(entries, D, tgt, hs)
-                if parse_vr(damt) != want:
+                if parse_vr(damt) not in want:
                     return ("amount", "row %s %s: amount %s is shown as %s, as of the posting date it is worth %s" %
-                            (ds, acct, show(raw), show(parse_vr(damt)), show(want)))
-            want, _ = o_balance_x(entries, D, tgt, held)
+                            (ds, acct, show(raw), show(parse_vr(damt)), [show(w) for w in want]))
+            want, _ = o_balance_x(entries, D, tgt, [(q, c, "") for c, q in sorted(held.items())])
         except Ambiguous:
             return None
-        if parse_vr(dtot) != want:
+        if parse_vr(dtot) not in want:
             return ("total", "row %s %s: running total %s, the holdings so far are worth %s as of that date" %
-                    (ds, acct, show(parse_vr(dtot)), show(want)))
+                    (ds, acct, show(parse_vr(dtot)), [show(w) for w in want]))
     return None
 
 
@@ -720,11 +808,22 @@ def rnd_qty(rng, nonzero=True):
 
 
 def gen_case(rng, tier):
-    n = rng.choice([2, 2, 3, 3, 4, 5])
+    n = rng.choice([2, 2, 3, 3, 4, 4, 5])
     comms = rng.sample(COMMS, n)
     shape = rng.choice(["single", "reversed", "mixed", "chain", "chain", "chain"]) if n > 2 else rng.choice(["single", "reversed", "mixed"])
+    if n >= 3 and rng.random() < 0.35:
+        # graphs with several routes between two commodities (outside the property's quantifier; the model covers them)
+        shape = rng.choice(["triangle", "diamond", "web"] if n >= 4 else ["triangle"])
     # links of the forest: consecutive commodities of the chain (a 2-commodity chain is an edge)
-    if shape == "chain":
+    if shape == "triangle":
+        links = [(comms[0], comms[1]), (comms[1], comms[2]), (comms[0], comms[2])] + list(zip(comms[2:], comms[3:]))
+    elif shape == "diamond":
+        links = [(comms[0], comms[1]), (comms[0], comms[2]), (comms[1], comms[3]), (comms[2], comms[3])] + list(zip(comms[3:], comms[4:]))
+    elif shape == "web":
+        allp = [(comms[i], comms[j]) for i in range(n) for j in range(i + 1, n)]
+        links = list(zip(comms, comms[1:])) + rng.sample([l for l in allp if l not in list(zip(comms, comms[1:]))], rng.randint(1, 3))
+        rng.shuffle(links)
+    elif shape == "chain":
         links = list(zip(comms, comms[1:]))
         if n > 3 and rng.random() < 0.3:
             links.pop(rng.randrange(len(links)))            # a broken chain: one end unreachable
@@ -733,9 +832,12 @@ def gen_case(rng, tier):
     orient = {}
     for l in links:
         orient[l] = {"single": "fwd", "reversed": "rev"}.get(shape, rng.choice(["fwd", "rev", "both"]))
-    ndays = rng.choice([2, 3, 4, 6, 8])
+    multi = shape in ("triangle", "diamond", "web")
+    ndays = rng.choice([1, 2, 2, 3, 4]) if multi else rng.choice([2, 3, 4, 6, 8])
     days = sorted(rng.sample(range(0, 12), min(ndays, 12)))
     nent = rng.choice([1, 2, 3, 5, 8, 12, 20, 30])
+    if multi:
+        nent = max(nent, rng.choice([len(links), len(links) + 2, 12]))
     items = []
     # holdings first or last (file position must not matter)
     hold_items = []
@@ -749,13 +851,13 @@ def gen_case(rng, tier):
     price_items = []
     cn = 0
     for i in range(nent):
-        l = rng.choice(links)
+        l = links[i] if (multi and i < len(links)) else rng.choice(links)
         o = orient[l]
         a, b = l if (o == "fwd" or (o == "both" and rng.random() < 0.5)) else (l[1], l[0])
         d = BASE + timedelta(days=rng.choice(days))
         r = rng.random()
         if r < 0.6:
-            tm = rng.choice(TIMES)
+            tm = rng.choice(TIMES[:4] if multi else TIMES)      # mostly midnights on multi-route graphs: equal ages are what matters there
             dt = midnight(d) + (timedelta(hours=tm[0], minutes=tm[1], seconds=tm[2]) if tm else timedelta(0))
             p, pdec = rnd_price(rng)
             if rng.random() < 0.02:
@@ -793,7 +895,7 @@ def gen_case(rng, tier):
     maxd = 6 if tier == "quick" else 12
     if len(cand) > maxd:
         cand = sorted(rng.sample(cand, maxd))
-    targets = [comms[-1] if shape == "chain" else comms[1]]
+    targets = [comms[-1] if shape in ("chain", "web") else comms[2] if shape == "triangle" else comms[3] if shape == "diamond" else comms[1]]
     other = rng.choice(comms)
     if other not in targets:
         targets.append(other)
@@ -821,6 +923,29 @@ def exhaustive_cases(tier):
                 dt = midnight(d) + (timedelta(hours=12) if noon else timedelta(0))
                 items.append(P(dt, a, b, prices[i], 1, noon))
             cases.append(Case(items, dates, ["BBB", "AAA"], "exh", reg=False, listing=(n == 1)))
+    return cases
+
+
+def exhaustive_routes(tier):
+    """Every triangle AAA-BBB-CCC whose three quotes are dated on one of two days, in every file
+    order (thorough: and every orientation of the quotes), valued on the five days around them."""
+    d1, d2 = BASE + timedelta(days=3), BASE + timedelta(days=5)
+    dates = [midnight(BASE + timedelta(days=x)) for x in (2, 3, 4, 5, 6)]
+    hold = T(BASE, [post("A:a", 10, 0, "AAA"), post("A:b", Fraction(7, 2), 1, "BBB"), post("A:c", 3, 0, "CCC")])
+    pairs = [("AAA", "BBB", Fraction(2)), ("BBB", "CCC", Fraction(5)), ("AAA", "CCC", Fraction(8))]
+    orients = list(itertools.product((0, 1), repeat=3)) if tier == "thorough" else [(0, 0, 0), (0, 1, 0)]
+    cases = []
+    for ds in itertools.product((d1, d2), repeat=3):
+        for perm in itertools.permutations(range(3)):
+            for o in orients:
+                items = [hold]
+                for i in perm:
+                    a, b, p = pairs[i]
+                    if o[i]:
+                        a, b, p = b, a, 1 / p
+                    pdec = next(k for k in range(6) if (p * 10 ** k).denominator == 1)
+                    items.append(P(midnight(ds[i]), a, b, p, pdec))
+                cases.append(Case(items, dates, ["CCC", "BBB"], "exh-routes", reg=False, listing=False))
     return cases
 
 
@@ -876,6 +1001,35 @@ def boundary_cases():
     cases.append(Case([h2, P(late, "AAA", "CCC", Fraction(9), 0), P(D0, "AAA", "BBB", Fraction(3), 0), P(D0, "AAA", "CCC", Fraction(7), 0)],
                       dates, ["BBB"], "boundary", reg=False))
     cases.append(Case([h2, P(D0, "AAA", "BBB", Fraction(2), 0), P(late, "CCC", "AAA", Fraction(4), 0)], dates, ["BBB"], "boundary", reg=False))
+    # several routes (history.cc 464-467: the route whose OLDEST price is the most recent wins)
+    hA = T(BASE, [post("A:a", 10, 0, "AAA"), post("A:d", 3, 0, "DDD")])
+    md = [D0 - timedelta(days=1), D0, D0 + timedelta(days=1), D0 + timedelta(days=3)]
+    for do, dn in ((-6, -1), (-1, -6), (-1, -1), (0, 0), (-6, 0), (0, -6), (1, -2), (-2, 1)):
+        # triangle: a direct quote AAA->CCC dated D0+do against the two-hop route through BBB dated D0+dn
+        direct = P(D0 + timedelta(days=do), "AAA", "CCC", Fraction(20), 0)
+        hop1 = P(D0 + timedelta(days=dn), "AAA", "BBB", Fraction(3), 0)
+        hop2 = P(D0 + timedelta(days=dn), "CCC", "BBB", Fraction(1, 2), 1)            # reversed quote on the second hop
+        for order in ([direct, hop1, hop2], [hop2, hop1, direct], [hop1, direct, hop2]):
+            cases.append(Case([hA] + order, md, ["CCC", "BBB"], "boundary-routes", reg=(do == -6)))
+    for ages in ((0, 0, 0, 0), (-1, -1, -1, -1), (-1, -3, -1, -3), (-3, -1, -3, -1), (-1, -3, -3, -1), (0, -2, -1, -1), (-2, -2, 0, 0)):
+        # diamond AAA-BBB-DDD / AAA-CCC-DDD; equal ages tie, otherwise the fresher bottleneck wins
+        es = [P(D0 + timedelta(days=ages[0]), "AAA", "BBB", Fraction(2), 0), P(D0 + timedelta(days=ages[1]), "AAA", "CCC", Fraction(3), 0),
+              P(D0 + timedelta(days=ages[2]), "BBB", "DDD", Fraction(5), 0), P(D0 + timedelta(days=ages[3]), "DDD", "CCC", Fraction(1, 8), 3)]
+        for order in (es, es[::-1], [es[1], es[0], es[3], es[2]], [es[2], es[3], es[0], es[1]]):
+            cases.append(Case([hA] + list(order), md, ["DDD", "AAA"], "boundary-routes", reg=False))
+        # the same with a price dated after every valuation date that creates the AAA-CCC edge first
+        cases.append(Case([hA, P(D0 + timedelta(days=25), "AAA", "CCC", Fraction(9), 0)] + es, md, ["DDD"], "boundary-routes", reg=False))
+    # two valuation dates in one run: postings out of date order valued by reg -X (also --sort -date), several routes
+    tri = [P(D0 - timedelta(days=4), "AAA", "BBB", Fraction(2), 0), P(D0 - timedelta(days=2), "AAA", "BBB", Fraction(3), 0),
+           P(D0 - timedelta(days=2), "BBB", "CCC", Fraction(5), 0), P(D0, "AAA", "CCC", Fraction(20), 0)]
+    hs = [T((D0 + timedelta(days=1)).date(), [post("A:x", 10, 0, "AAA")]), T((D0 - timedelta(days=3)).date(), [post("A:y", 1, 0, "AAA")]),
+          T((D0 - timedelta(days=1)).date(), [post("A:z", 2, 0, "AAA")]), T((D0 - timedelta(days=3)).date(), [post("A:y", 4, 0, "BBB")])]
+    cases.append(Case(tri + hs, md, ["CCC", "BBB"], "boundary-routes", reg=True))
+    cases.append(Case(hs[::-1] + tri[::-1], md, ["CCC"], "boundary-routes", reg=True))
+    chain3 = [P(D0 - timedelta(days=4), "AAA", "BBB", Fraction(2), 0), P(D0 - timedelta(days=2), "BBB", "CCC", Fraction(5), 0),
+              P(D0 - timedelta(days=1), "AAA", "BBB", Fraction(4), 0), P(D0, "BBB", "CCC", Fraction(7), 0)]
+    cases.append(Case(chain3 + hs, md, ["CCC"], "boundary", reg=True))
+    cases.append(Case(hs + chain3[::-1], md, ["CCC"], "boundary", reg=True))
     # no record at all; records only for another pair; only future records
     cases.append(Case([hold], dates, ["BBB", "CCC"], "boundary", reg=True))
     cases.append(Case([hold, P(D0, "DDD", "EEE", Fraction(2), 0)], dates, ["BBB", "EEE"], "boundary", reg=False))
@@ -921,7 +1075,7 @@ def still_fails(items, D, mode, acct, fp):
     args = bal_args("J", D, mode)
     jt = journal_text(items)
     try:
-        if acct is None:
+        if acct is None or isinstance(acct, tuple):
             if (0, mode) not in led["strip"]:
                 return None
             rc2, out2, err2 = led["strip"][(0, mode)]
@@ -929,13 +1083,17 @@ def still_fails(items, D, mode, acct, fp):
                 return None
             st_items = strip_future(items, D)
             r2 = parse_bal(out2) if rc2 == 0 else None
-            f = classify_pair(entries, entries_of(st_items), D, mode, holds, rows, r2)
+            only = acct[1] if isinstance(acct, tuple) else None
+            f = classify_pair(entries, entries_of(st_items), D, mode, holds, rows, r2, only=only)
             if f != fp:
                 return None
-            diff = [a for a in sorted(set(rows) | set(r2 or {})) if rows.get(a) != (r2 or {}).get(a)]
+            diff = [a for a in sorted(set(rows) | set(r2 or {})) if rows.get(a) != (r2 or {}).get(a) and only in (None, a)]
             what = ("%s --now %s: removing the prices dated after the valuation date changes the report (accounts %s: %s with them, %s without)"
                     % (mode_text(mode), D.date(), diff, [show(rows.get(a)) for a in diff], [show((r2 or {}).get(a)) for a in diff]))
-            return {"kind": "paired", "journal": jt, "journal_without_future": journal_text(st_items), "args": args}, f, what
+            rep = {"kind": "paired", "journal": jt, "journal_without_future": journal_text(st_items), "args": args}
+            if only is not None:
+                rep["account"] = only
+            return rep, f, what
         if acct not in holds:
             return None
         got = rows.get(acct)
@@ -1025,6 +1183,13 @@ def report(ctx, probs):
     for fp, lst in seen.items():
         lst.sort(key=lambda x: len(x[1].get("journal", "")))
         what, rep, loc = lst[0]
+        if fp in OUTSIDE_QUANTIFIER:
+            # reproduced and proved (C10.exchange_future_irrelevant_general_false), but the graphs are outside the property's
+            # quantifier (single edge / reversed edge / simple chain): recorded, not reported as a violation of C10
+            ctx.feature("observation:" + fp, len(lst))
+            ctx.extra_cov.setdefault("observations", {})[fp] = {"count": len(lst), "what": what, "journal": rep.get("journal", "")[:800],
+                                                                 "args": rep.get("args", [])[2:]}
+            continue
         if loc is not None:
             case, D, mode, acct = loc
             small = shrink(case.items, D, mode, acct, fp)
@@ -1038,15 +1203,18 @@ def run(tier, seed):
     ctx = Check("C10", tier, seed)
     ctx.mism = []
     ctx.rule = ("journals with 1-30 price records (P lines with/without a time of day, posting costs @ / @@) over 2-5 commodities forming a "
-                "single edge, a reversed edge, a both-ways edge or a simple (possibly broken) chain, equal-moment and out-of-order records, "
+                "single edge, a reversed edge, a both-ways edge, a simple (possibly broken) chain, or - beyond the property's quantifier - a "
+                "triangle, diamond or web with 2-3 alternative routes of different and of equal ages; equal-moment and out-of-order records, "
                 "holdings in several accounts; every journal is valued with bal -X T (two targets) and -V at valuation dates one day before, on "
-                "and one day after the price days plus far before/after, with reg -X T and pricedb --now D; bounded-exhaustive: all histories of "
-                "<= 2 (thorough 3) records on one pair x 5 dates; non-trivial = a price record within one day of the valuation date, or a "
-                "reversed/chained conversion; distinct by (journal, date, mode)")
+                "and one day after the price days plus far before/after, with reg -X T (file order and --sort -date: several valuation dates "
+                "in one run) and pricedb --now D; bounded-exhaustive: all histories of <= 2 (thorough 3) records on one pair x 5 dates, all "
+                "triangles with quotes on two days in every file order; non-trivial = a price record within one day of the valuation date, or "
+                "a reversed/chained/multi-route conversion; distinct by (journal, date, mode)")
     ctx.assumptions = ["GMP rational arithmetic is exact", "valuation moments are midnights (--now takes a date)",
-                       "path choice modelled on forests only (unique simple path); ledger's Dijkstra over several routes is outside the model",
+                       "route choice follows boost 1.83 (relax_target, breadth_first_visit, d_ary_heap<4>), pinned by text; the theorems hold "
+                       "for every tie-break that pops a vertex of least distance",
                        "precision counters of converted amounts are not compared",
-                       "the vertex set handed to the model is the set of commodities of the journal"]
+                       "on equally old routes with different prices the oracle accepts any of them; the model must match the binary exactly"]
     ctx.trusted = ["tools/extract_prices.py (operators, rules and code text of the price-history statements)"]
     if not ctx.prepare():
         return ctx.finish()
@@ -1069,6 +1237,9 @@ def run(tier, seed):
     exh = exhaustive_cases("thorough" if search else tier)
     ctx.exhaustive = {"histories_on_one_pair": len(exh), "valuation_dates_each": 5, "modes": "-X BBB, -X AAA, -V"}
     probs += process(ctx, exh)
+    exr = exhaustive_routes("thorough" if search else tier)
+    ctx.exhaustive["triangles_two_days"] = len(exr)
+    probs += process(ctx, exr)
     bnd = boundary_cases()
     ctx.extra_cov["boundary_cases"] = len(bnd)
     probs += process(ctx, bnd)
@@ -1146,6 +1317,8 @@ def replay_obj(obj, quiet=False):
             say("journal:\n" + r["journal"])
             say("command: ledger -f J " + " ".join(r["args"][2:]))
             say("with the future prices:\n" + a[2] + "without them:\n" + b[2])
+            if r.get("account"):
+                return 0 if (a[0], a[1].get(r["account"])) == (b[0], b[1].get(r["account"])) else 1
             return 0 if a[:2] == b[:2] else 1
         if kind == "listing":
             rc, out, err = lrun(["-f", jp, "pricedb", "--empty", "--now", r["now"], "--pricedb-format", FMT_DB])
@@ -1153,7 +1326,7 @@ def replay_obj(obj, quiet=False):
             say("pricedb now: %s\nexpected: %s" % (got, r["expected"]))
             return 0 if got == r["expected"] else 1
         if kind == "reg":
-            rc, out, err = lrun(["-f", jp, "reg", "^A", "--empty", "--no-rounding", "-X", r["target"], "--now", r["now"], "--format", FMT_REG])
+            rc, out, err = lrun(["-f", jp, "reg", "^A", "--empty", "--no-rounding", "-X", r["target"]] + r.get("extra", []) + ["--now", r["now"], "--format", FMT_REG])
             say(out)
             ents = [(a, b, datetime.fromisoformat(t), Fraction(p)) for a, b, t, p in r.get("prices", [])]
             bad = check_register(ents, r["target"], rc, out, err)
